@@ -59,6 +59,7 @@ func Load(repoDir, repoMod string, patterns []string, specDir string) (*Engine, 
 			switch x := m.(type) {
 			case *ssa.Function:
 				e.funcs[FuncKey(x)] = x
+				e.indexAnon(x)
 			case *ssa.Type:
 				nt, ok := x.Type().(*types.Named)
 				if !ok {
@@ -67,6 +68,7 @@ func Load(repoDir, repoMod string, patterns []string, specDir string) (*Engine, 
 				for i := 0; i < nt.NumMethods(); i++ {
 					if f := prog.FuncValue(nt.Method(i)); f != nil {
 						e.funcs[FuncKey(f)] = f
+						e.indexAnon(f)
 					}
 				}
 			}
@@ -435,6 +437,9 @@ func (e *Engine) lookupMethodSig(ct *Contract) *methodSig {
 	if strings.HasPrefix(rest[:j], "*") {
 		recv = types.NewPointer(recv)
 	}
+	if sig, isFn := obj.Type().Underlying().(*types.Signature); isFn && mn == "call" {
+		return &methodSig{sig: sig, recv: obj.Type()}
+	}
 	m, _, _ := types.LookupFieldOrMethod(recv, true, pkg, mn)
 	f, ok := m.(*types.Func)
 	if !ok {
@@ -445,3 +450,10 @@ func (e *Engine) lookupMethodSig(ct *Contract) *methodSig {
 
 // MathAssumed reports whether some signed machine arithmetic was treated as mathematical.
 func (e *Engine) MathAssumed() bool { return e.mathAssumed }
+
+func (e *Engine) indexAnon(f *ssa.Function) {
+	for _, a := range f.AnonFuncs {
+		e.funcs[FuncKey(a)] = a
+		e.indexAnon(a)
+	}
+}
